@@ -72,8 +72,10 @@ def close_seq(a, e, tol=1e-9):
 
 def snap(x, D=10000):
     """float -> [n,d] with d <= D if the float is within 1e-9 of such a fraction, else the marker [0,0]."""
+    if x != x or x in (float("inf"), float("-inf")) or abs(x) > 1e8:
+        return [0, 0]          # not a lattice value (also keeps TLC's 32-bit integers safe)
     f = Fraction(x).limit_denominator(D)
-    if abs(float(f) - x) <= 1e-9 * max(1.0, abs(x)):
+    if abs(float(f) - x) <= 1e-9 * max(1.0, abs(x)) and abs(f.numerator) < 2 ** 30:
         return [f.numerator, f.denominator]
     return [0, 0]
 
